@@ -314,6 +314,35 @@ static void tlv_serialize_checks(const Node *t, const unsigned char *E, const un
 			vh_count("getRawValue_ok", 1);
 		}
 	}
+	/* the payload of the built element (leaf, expanded composite, or composite collapsed by the getter above) is replaced by a raw value of
+	 * 0, 1, 255, 256 or a random number of bytes: the element then encodes as its header + exactly that value, whatever it held before */
+	if (t->fits) {
+		static const size_t lens[6] = {0, 1, 255, 256, 0, 0}; static unsigned turn; size_t k = lens[turn % 6], n, l2 = 0, i; unsigned char *pv, *buf; Node leaf; int rc;
+		unsigned char exp[4 + 1024];
+		if (turn++ % 6 >= 4) k = vh_below(600);
+		if ((turn / 6) % 3 != 0) { KSI_TLV_free(tlv); tlv = build_tlv(t); if (!tlv) return; }     /* two of three times on a freshly built (still expanded) element */
+		pv = malloc(k + 1); for (i = 0; i < k; i++) pv[i] = (unsigned char)(0xA5 ^ i);
+		{ unsigned char *px = vh_exact(pv, k); case_sub(" entry=KSI_TLV_setRawValue(%zu)-on-built-element", k); rc = KSI_TLV_setRawValue(tlv, k ? px : (vh_below(2) ? px : NULL), k); vh_exact_free(px, k); }
+		vh_eval++;
+		if (rc != KSI_OK) vh_viol("tlv.setRawValue:overwrite:refused", tdesc, "KSI_TLV_setRawValue(%zu bytes) on a built element failed res=0x%x", k, rc);
+		else {
+			memset(&leaf, 0, sizeof leaf); leaf.tag = t->tag; leaf.nc = t->nc; leaf.fwd = t->fwd; leaf.pl = pv; leaf.pln = k; measure(&leaf);
+			n = leaf.elen; enc(&leaf, exp, NULL);
+			buf = out_get(n + 8, n);
+			rc = KSI_TLV_serialize_ex(tlv, buf, n + 8, &l2);
+			if (rc != KSI_OK || l2 != n || memcmp(buf, exp, n)) {
+				char key[96]; snprintf(key, sizeof key, "tlv.setRawValue:overwrite-%s:%s-value:old-content-survives-or-wrong-bytes", t->comp ? "composite" : "leaf", k ? "nonempty" : "empty");
+				vh_viol(key, tdesc, "after KSI_TLV_setRawValue(%zu bytes) the element serializes to %zu bytes (res=0x%x), expected %zu bytes: header + the new value", k, l2, rc, n);
+			} else {
+				const unsigned char *p2 = NULL; size_t l3 = 77;
+				rc = KSI_TLV_getRawValue(tlv, &p2, &l3);
+				if (rc != KSI_OK || l3 != k || (k && memcmp(p2, pv, k))) vh_viol("tlv.setRawValue:overwrite:getRawValue-differs", tdesc, "KSI_TLV_getRawValue after KSI_TLV_setRawValue(%zu bytes): res=0x%x, %zu bytes", k, rc, l3);
+				else vh_count(t->comp ? "setRawValue_overwrites_composite" : "setRawValue_overwrites_leaf", 1);
+			}
+			out_put();
+		}
+		free(pv);
+	}
 	KSI_TLV_free(tlv);
 }
 
